@@ -520,8 +520,8 @@ pub enum Twin {
 fn t_bound_for(e: &EnumSpec) -> &'static str {
     if e.derives("EnumString") || e.derives("EnumIter") || e.derives("FromRepr") {
         "::core::default::Default"
-    } else if e.where_clause && (e.derives("EnumIs") || e.derives("EnumTryAs")) {
-        // a bound that every impl for the enum has to repeat
+    } else if e.where_clause {
+        // a bound that every impl for the enum has to repeat (whatever the derive)
         "::core::clone::Clone"
     } else {
         ""
@@ -788,6 +788,7 @@ pub fn glue_iter(e: &EnumSpec, name: &str, inst: &str, src: &mut Src) {
     src.push("    fn iter() -> Self::It { <Self as strum::IntoEnumIterator>::iter() }");
     if e.derives("EnumCount") {
         src.push("    fn count() -> Option<usize> { Some(<Self as strum::EnumCount>::COUNT) }");
+        src.push("    fn count_short() -> Option<usize> { #[allow(unused_imports)] use strum::EnumCount as _; Some(Self::COUNT) }");
     }
     if e.derives("VariantNames") {
         src.push("    fn variant_names() -> Option<&'static [&'static str]> { Some(<Self as strum::VariantNames>::VARIANTS) }");
